@@ -7,6 +7,24 @@ CLAIMED = {
  "C11": ("Theorem: the regenerated Python tick equals the specification fold (propagate, update, hold per reading; report at output time) for every reading list and every wrapped filter, by induction; same for the C++ hand model; hence equal call sequences. Tied by bit-exact recorded call traces on random multi-tick histories for Python and all four C++ Tag combinations.",
          "Coq induction over reading lists on regenerated Python tick + C++ hand model; recorded-trace correspondence",
          "py2v translator; C++ tick overloads hand-modelled; the wrapped filter is abstract", "5 C11"),
+ "C01": ("Theorems for every definition, every interpretation of function symbols, every input and every CSE result meeting the stated contract: BasicBlock.execute is the sequential-let semantics; Model.model returns, by name, the value of each state's update expression; CSE-independence. Argument/call orders and temporary scopes are regenerated from python.py on every run; the exported post-CSE program is re-executed exactly in Coq and compared with the implementation; sympy subs/evalf oracle by name.",
+         "Coq theorems (stdlib) over parameters regenerated from python.py; exported-program correspondence over Q by vm_compute; exact symbolic oracle as search",
+         "sympy cse/simplify/lambdify contracts are premises (validated per instance); float rounding at 1e-9 relative; gen_layout.py translator", "5 C01"),
+ "C03": ("Theorem: for every shape (rectangular included) the un-flattened entry (row name, column name) is the value of the derivative-oracle entry, given stride = number of symbolic columns - the index expressions, shapes and loop ranges are regenerated from the three Jacobian methods and the side conditions re-proved on every run; refutation witness for any other stride. Exported Jacobian blocks are un-flattened in Coq and compared with the implementation and with independently computed sympy.diff entries.",
+         "Coq theorems on regenerated index expressions (lia side conditions); exported-block correspondence over Q; sympy.diff oracle by name",
+         "sympy Matrix.jacobian/diff is an oracle (contract validated per instance); gen_layout.py", "5 C03"),
+ "C04": ("MathComp theorem for every dimension and real field: the covariance expression regenerated from process_model equals G P G^T + V M V^T and preserves symmetric PSD; stdlib theorems: M is the symmetric diagonal-by-name matrix of the supplied noise. The whole chain (exported blocks, un-flattening, named noise, regenerated formula) is evaluated exactly in Coq against the implementation; purity checked by translator and by before/after comparison.",
+         "MathComp proof about regenerated formula + stdlib noise-assembly theorems; exact chained correspondence; exact sympy oracle",
+         "agreement of renderings A (MathComp) and B (lists over Q) of the translator is trusted; numpy operations are oracles; float rounding", "5 C04"),
+ "C05": ("MathComp theorems for every reading dimension: the regenerated sensor_model is x + K(z-h), P - K H P with S = H P H^T + Q, K = P H^T S^-1; recorded (z-h, S) in both branches; fixed point; posterior symmetric PSD and <= prior (P - P' PSD); Q diagonal by name (stdlib). Exact chained correspondence in Coq, exact sympy Kalman oracle by name.",
+         "MathComp proofs (unit S via positive-definiteness, PSD identity) about regenerated update; exact chained correspondence; oracle",
+         "renderings A/B agreement trusted; np.linalg.inv oracle; float rounding; conditioning guard cond(S) <= 1e6", "5 C05"),
+ "C06": ("MathComp theorems over any real closed field: the regenerated Python predicate and C++ helper are true exactly when z^T S^-1 z > k sqrt(2m) + m; disabled settings never discard; same decision; a discard returns the inputs and still records the innovation (both back ends). PrimFloat instance of the regenerated threshold compared bit-for-bit with Python and the compiled helper at and within 3 ulp of the boundary.",
+         "MathComp rcfType proofs on regenerated predicates (Python + C++ header + template); PrimFloat boundary correspondence; exact rational oracle",
+         "gen_ekf.py (regex/expression parser for the C++ header and template); g++ -ffp-contract=off + Eigen stand-in; NIS value itself exact-arithmetic only", "5 C06"),
+ "C09": ("MathComp theorem by induction over arbitrary histories of regenerated predict/update steps (any Jacobians, singular included): symmetric PSD is preserved; the validity gate never refuses a PSD matrix (per real eigenpair, tol <= 0 <= scale). Gate constants regenerated and compared with the implementation on diagonal matrices; long histories on singular-Jacobian models checked on the implementation.",
+         "MathComp induction over histories of regenerated steps + gate theorem; implementation histories as search",
+         "rounding inside matmul/eig not modelled: 'up to rounding' is checked on histories, not proved (partial)", "5 C09"),
 }
 props = [json.loads(l) for l in open("/verif/properties.jsonl")]
 checks, na = [], []
